@@ -132,7 +132,12 @@ def judge(H):
             else:
                 exp = P["start_seq"] if P["start_seq"] is not None else 0
             if b["base_seq"] != exp:
-                V.append(("sequence_gap", f"partition {a['partition']}: base sequence {b['base_seq']} arrived, expected {exp}",
+                from vf import produce_sim as _ps
+                mech = "sequence_gap"
+                if _ps.sent_batch_expired_without_leader(H, a["partition"], exp, a["t"]):
+                    mech = "sequence_gap_after_sent_batch_expired_without_leader"
+                    poisoned.add(key)      # everything after it is rejected by the broker: one finding, not many
+                V.append((mech, f"partition {a['partition']}: base sequence {b['base_seq']} arrived, expected {exp}",
                           {"arrival": a, "previous": prev[-1] if prev else None}))
             prev.append({"base_seq": b["base_seq"], "count": b["count"], "uids": b["uids"]})
     # retried arrivals without idempotence: same uid list arriving again
@@ -178,7 +183,16 @@ def nontrivial(H, st):
 def shards(tier, seed):
     n = 16
     per = 40 if tier == "quick" else 600
-    return [{"seed": seed * 7919 + s, "n": per, "timeout_s": 3000} for s in range(n)]
+    return [{"seed": seed * 7919 + s, "n": per, "timeout_s": 3000, "shard_index": s} for s in range(n)]
+
+
+def _pinned(prop, res):
+    import json as _json
+    import os as _os
+    with open(_os.path.join(_os.path.dirname(_os.path.abspath(__file__)), "produce_pinned.json")) as f:
+        out = [dict(e["params"]) for e in _json.load(f) if prop in e["props"]]
+    res["counters"]["pinned_histories"] = len(out)
+    return out
 
 
 def run_shard(params):
@@ -190,8 +204,10 @@ def run_shard(params):
            "samples": []}
     rng = random.Random(params["seed"])
     hits = set()
-    for i in range(params["n"]):
-        P = produce_sim.gen_params(rng, i, params.get("tier", "quick"), params.get("force"))
+    todo = [produce_sim.gen_params(rng, i, params.get("tier", "quick"), params.get("force")) for i in range(params["n"])]
+    if params.get("shard_index") == 0:
+        todo += _pinned("C01", res)
+    for P in todo:
         H = produce_sim.run_history(P)
         res["evaluations"] += 1
         if H["errors"] or H["sim_errors"]:
